@@ -235,6 +235,8 @@ def run(chk: Check):
             # the stored overlaps a sampler call receives are in general STALE (the driver re-orthonormalises and
             # reconfigures after the previous call without refreshing them): hand over deliberately wrong ones
             pd0["overlaps"] = pd0["overlaps"] * (1.37 - 0.21j) + 0.05
+            pd0["pop_control_ene_shift"] = pd0["e_estimate"] - 0.41      # carried over from a previous block
+            pd0["n_killed_walkers"] = jnp.array(3.0)
             smp = S(n_prop_steps=r["steps"], n_ene_blocks=r["ene"], n_sr_blocks=r["sr"], n_blocks=1)
             o = {"ad_mode": None if r["ad_mode"] == "none" else r["ad_mode"], "orbital_rotation": r["orbital_rotation"],
                  "do_sr": r["do_sr"]}
